@@ -255,6 +255,7 @@ def run(ctx):
     _run_rules(ctx)
     from .. import boundaries
     boundaries.check(ctx, 'C05.RB', 'C05')
+    boundaries.check_inits(ctx, 'C05.RI', 'C05')
     boundaries.check_codes(ctx, 'C05.RE', 'C05')
     boundaries.check_writes(ctx, 'C05.RW', 'C05')
     boundaries.check_guards(ctx, 'C05.RG', 'C05')
